@@ -74,24 +74,37 @@ type zzResp struct {
 
 // zzWrite performs one write of the given kind. amt is the (symbolic) amount used by
 // the creating kinds; target is the transaction id used by revert / tx metadata.
+// zzMeta is the metadata a write carries: one entry, or (w.metaVariant) nil / empty / two entries.
+func zzMeta(w *zzWorld, key, tag string) metadata.Metadata {
+	switch w.metaVariant {
+	case 1:
+		return nil
+	case 2:
+		return metadata.Metadata{}
+	case 3:
+		return metadata.Metadata{key: tag, "other": ""}
+	}
+	return metadata.Metadata{key: tag}
+}
+
 func zzWrite(w *zzWorld, kind int, p Parameters, amt *big.Int, target *big.Int, tag string) zzResp {
 	switch kind {
 	case zzKCreateScript:
 		rs := zzScript(zzSendScript, map[string]string{"m": "USD/2 " + amt.String()})
-		rs.Metadata = metadata.Metadata{"tag": tag}
+		rs.Metadata = zzMeta(w, "tag", tag)
 		tx, err := w.commander.CreateTransaction(w.ctx, p, rs)
 		return zzResp{tx, err}
 	case zzKCreatePostings:
-		td := ledger.TransactionData{Postings: ledger.Postings{{Source: "a", Destination: "c", Asset: "USD/2", Amount: amt}}, Metadata: metadata.Metadata{"tag": tag}}
+		td := ledger.TransactionData{Postings: ledger.Postings{{Source: "a", Destination: "c", Asset: "USD/2", Amount: amt}}, Metadata: zzMeta(w, "tag", tag)}
 		tx, err := w.commander.CreateTransaction(w.ctx, p, ledger.TxToScriptData(td, false))
 		return zzResp{tx, err}
 	case zzKRevert:
 		tx, err := w.commander.RevertTransaction(w.ctx, p, target, false)
 		return zzResp{tx, err}
 	case zzKSetAccountMeta:
-		return zzResp{nil, w.commander.SaveMeta(w.ctx, p, ledger.MetaTargetTypeAccount, "a", metadata.Metadata{"k": tag})}
+		return zzResp{nil, w.commander.SaveMeta(w.ctx, p, ledger.MetaTargetTypeAccount, "a", zzMeta(w, "k", tag))}
 	case zzKSetTxMeta:
-		return zzResp{nil, w.commander.SaveMeta(w.ctx, p, ledger.MetaTargetTypeTransaction, target, metadata.Metadata{"k": tag})}
+		return zzResp{nil, w.commander.SaveMeta(w.ctx, p, ledger.MetaTargetTypeTransaction, target, zzMeta(w, "k", tag))}
 	case zzKDeleteAccountMeta:
 		return zzResp{nil, w.commander.DeleteMetadata(w.ctx, p, ledger.MetaTargetTypeAccount, "a", "k")}
 	case zzKDeleteTxMeta:
@@ -271,9 +284,14 @@ func zzIDString(v any) string {
 // ZZ_C13: every log entry the write path emits can be read back and re-verified.
 var zzC13BigIDs = []string{"", "9007199254740993", "1234567890123456789", "4611686018427387905"}
 
-func ZZ_C13N() int { return zzKinds * len(zzC13BigIDs) }
+var zzMetaVariantNames = []string{"one entry", "nil", "empty", "two entries (one empty value)"}
+
+func ZZ_C13N() int { return zzKinds * (len(zzC13BigIDs) + 3) }
 
 func ZZ_C13Desc(i int) string {
+	if v := i/zzKinds - len(zzC13BigIDs); v >= 0 {
+		return "write kind: " + zzKindNames[i%zzKinds] + ", last transaction id symbolic (< 2^62), metadata " + zzMetaVariantNames[v+1]
+	}
 	id := zzC13BigIDs[i/zzKinds]
 	if id == "" {
 		id = "symbolic (< 2^62)"
@@ -286,6 +304,11 @@ func ZZ_C13(shape int) {
 	amt := verifhook.BigInt("amt")
 	var w *zzWorld
 	var N *big.Int
+	variant := 0
+	if v := shape/zzKinds - len(zzC13BigIDs); v >= 0 {
+		variant = v + 1
+		shape = kind
+	}
 	if v := zzC13BigIDs[shape/zzKinds]; v == "" {
 		w, _, N = zzNewWorld()
 	} else {
@@ -295,6 +318,7 @@ func ZZ_C13(shape int) {
 		zzPreloadWith(st, N)
 		w = zzStart(st, NewDefaultLocker())
 	}
+	w.metaVariant = variant
 	p := Parameters{}
 	if kind%2 == 1 {
 		p.IdempotencyKey = "key-13"
